@@ -55,7 +55,7 @@ VARS = {"self": SELF, "F1": FUT, "TOV": ONEOF(EXPR("None"), EXPR("ValueError()")
 
 contract(f"{RC}::RequestCache._create_identifier", "identifier-format",
          vars={"self": SELF, "p": STR, "n": INT}, call="self._create_identifier(n, p)", raises=[],
-         ensures=["result == (p, n)"],     # the engine keeps f"{p}:{n}" as the pair of its symbolic pieces
+         ensures=['result == f"{p}:{n}"'],     # prefix, a colon, the decimal number - nothing else
          note="the identifier is prefix, ':' and the decimal number, nothing else", tier="thorough")
 
 contract(f"{RC}::RequestCache.add", "add", vars=VARS, requires=[R], call="self.add(c)", raises=[], stubs=STUBS,
@@ -175,3 +175,18 @@ def step(in_table, pending, state, ev):
     if pending:                 # A7: _on_timeout is only entered from a task that is still pending
         return (False, False, 2)
     return (in_table, pending, state)
+
+# ---------------------------------------------------------------------------------------------------------------------
+# shutdown: nothing pending survives, every future a stored request manages is cancelled, and the gate is closed for later adds
+SD_CACHE = lambda i: OBJ(f"{RC}::NumberCache", _prefix=STR, _number=INT, _managed_futures=EXPR(f"[(SF{i}, None)]"), _logger=LOGGER())  # noqa: E731
+contract(f"{RC}::RequestCache.shutdown", "shutdown.cancels-everything-and-closes-the-gate",
+         vars={"SF1": FUT, "SF2": FUT, "s1": SD_CACHE(1), "s2": SD_CACHE(2),
+               "self": OBJ(f"{RC}::RequestCache", _identifiers=EXPR("{'a': s1, 'b': s2} if n == 2 else ({'a': s1} if n == 1 else {})"),
+                           P=EXPR("{'a', 'b'} if n == 2 else ({'a'} if n == 1 else set())"), _waiters=EXPR("{}"),
+                           lock=EXPR("nullcontext()"), _task_lock=EXPR("nullcontext()"), _shutdown=BOOL,
+                           _timeout_override=OPT(REAL), _timeout_filters=EXPR("None"), _logger=LOGGER())},
+         instances=[{"n": 0}, {"n": 1}, {"n": 2}], call="run_coro(self.shutdown())", raises=[], stubs=STUBS,
+         ensures=["self._shutdown", "len(self._identifiers) == 0", "len(self.P) == 0",
+                  "len(calls('cancel_all_pending_tasks')) == 1", "len(calls('future.cancel')) == n"],
+         bounded="0..2 stored requests with one managed future each",
+         note="after shutdown the table and the pending-task set are empty and every managed future was cancelled")
